@@ -421,6 +421,42 @@ def _mean(a, axis=None):
     return tot / n
 
 
+def _np_mean(a, axis=None, dtype=None, out=None, **k):
+    """np.mean, with `out`: the result is written into that array (in place - whoever else holds it sees the mean) and returned"""
+    if k or dtype is not None:
+        raise Undecided("np.mean with %s" % sorted(list(k) + (["dtype"] if dtype is not None else [])))
+    if isinstance(a, Stack3):
+        r = a.mean(axis)
+    elif isinstance(a, (list, tuple)) and a and isinstance(a[0], NumArr) and a[0].ndim == 2:
+        r = Stack3(list(a), 0).mean(axis)
+    else:
+        r = _mean(a, axis)
+    return write_into(out, r)
+
+
+def write_into(out, r):
+    """numpy's out= argument: copy the result into `out` element by element and hand `out` back"""
+    if out is None:
+        return r
+    if not isinstance(out, NumArr):
+        raise TypeError("return arrays must be of ArrayType")
+    rr = r if isinstance(r, NumArr) else NumArr([r])
+    if tuple(out.shape) != tuple(rr.shape):
+        raise ValueError("output parameter has the wrong shape %s, expected %s" % (tuple(out.shape), tuple(rr.shape)))
+    if out.ndim == 1:
+        out.data[:] = [_cast_like(out, v) for v in rr.data]
+    else:
+        for ro, rn in zip(out.data, rr.data):
+            ro.data[:] = [_cast_like(out, v) for v in rn.data]
+    return out
+
+
+def _cast_like(arr, v):
+    if getattr(arr, "dtype", "float") == "int" and isinstance(v, float):
+        return int(v)          # numpy would refuse (same-kind casting) for ufuncs; reductions cast - keep the value visible as truncated
+    return v
+
+
 def emap(fn, *xs):
     """element-wise application with numpy broadcasting of scalars, (n,), (n,1)/(1,n) and (m,n) operands"""
     arrs = [x for x in xs if isinstance(x, NumArr)]
@@ -605,8 +641,8 @@ def num_summaries():
         "np.interp": interp,
         "np.inf": float("inf"), "np.dot": dot, "np.matmul": dot,
         "np.dstack": lambda seq: Stack3(list(seq), 2),
-        "np.mean": lambda a, axis=None, **k: a.mean(axis) if isinstance(a, Stack3) else (Stack3(list(a), 0).mean(axis) if (isinstance(a, (list, tuple)) and a and isinstance(a[0], NumArr) and a[0].ndim == 2) else _mean(a, axis)),
-        "np.average": lambda a, axis=None, **k: a.mean(axis) if isinstance(a, Stack3) else _mean(a, axis),
+        "np.mean": _np_mean,
+        "np.average": lambda a, axis=None: a.mean(axis) if isinstance(a, Stack3) else _mean(a, axis),
         "np.size": lambda a, axis=None: (a.size if axis is None else a.shape[axis]) if isinstance(a, NumArr) else (len(a) if _is_seq(a) else 1),
         "np.shape": lambda a: a.shape if isinstance(a, NumArr) else (len(a),) if _is_seq(a) else (),
         "np.ndim": lambda a: a.ndim if isinstance(a, NumArr) else (1 if _is_seq(a) else 0),
